@@ -129,7 +129,42 @@ func Matrix(full bool) []*Schema {
 		{Num: 3, IsMsg: true, Msg: 7, Shape: Oneof, Group: 0},
 		{Num: 4, IsMsg: true, Msg: 7, Shape: Singular},
 	}}
-	s.Msgs = []Msg{m0, m1, m2, m3, m4, m5, m6, m7, m8}
+	// M9: tag-width boundaries (tag value 2^7k and its neighbours) for every wire type and shape
+	m9 := Msg{Name: "M9"}
+	bi := 0
+	for _, base := range []int{16, 2048, 262144, 33554432} {
+		for d := -1; d <= 1; d++ {
+			num := base + d
+			f := Field{Num: num}
+			switch bi % 6 {
+			case 0:
+				f.Kind, f.Shape = Int32, Singular
+			case 1:
+				f.Kind, f.Shape = Uint64, Singular
+			case 2:
+				f.Kind, f.Shape = Bool, Repeated // unpacked varint
+			case 3:
+				f.Kind, f.Shape = Sfixed32, Singular
+			case 4:
+				f.Kind, f.Shape = Double, Singular
+			case 5:
+				f.Kind, f.Shape = String, Singular
+			}
+			bi++
+			m9.Fields = append(m9.Fields, f)
+		}
+	}
+	// the exact boundaries again with wire type 0 in the remaining shapes
+	m10 := Msg{Name: "M10", Fields: []Field{
+		{Num: 16, Kind: Sint64, Shape: Singular},
+		{Num: 2048, Kind: Enum, Shape: Repeated, Packed: false},
+		{Num: 262144, Kind: Int64, Shape: Oneof, Group: 0},
+		{Num: 33554432, Kind: Uint32, Shape: Oneof, Group: 0},
+		{Num: 2, Kind: Int32, Shape: Map, Key: Int32},
+		{Num: 15, Kind: Bool, Shape: Singular},
+		{Num: 536870911, Kind: Sint32, Shape: Singular},
+	}}
+	s.Msgs = []Msg{m0, m1, m2, m3, m4, m5, m6, m7, m8, m9, m10}
 	out := []*Schema{s}
 	if full {
 		// every key kind x every value kind (+ message), 3 schemas to keep packages small
